@@ -1,7 +1,8 @@
 """C14 - results do not depend on process count, scheduling or item order (structural clauses)."""
 from __future__ import annotations
 
-from . import c06, fa
+from ..program import enclosing_stmt, norm
+from . import c06, c13, c16, fa
 from .common import check_none_defaults
 
 EXPLANATION = (
@@ -9,7 +10,10 @@ EXPLANATION = (
     "(FVA) or are order-free rows carrying their own ids (deletions); positional consumption only with ordered "
     "primitives (OptGP uses pool.map); (residue) each task function leaves nothing behind on the worker model: "
     "the FVA step resets its objective coefficient on every normal exit, deletion workers do everything inside a "
-    "per-task context; (chunk) chunk size >= 1 through the dominating clamp; (seed) each chain seeds the generator "
+    "per-task context, and the per-item helpers loopless_fva_iter/_reaction_deletion/_gene_deletion have no effect on "
+    "the worker's model that outlives the item (scope analysis of C13); (tasks) the deletion task set is the set of "
+    "frozensets over the full product, whatever the order of the lists; (count) OptGP's bookkeeping uses the number "
+    "of samples actually produced; (chunk) chunk size >= 1 through the dominating clamp; (seed) each chain seeds the generator "
     "with sampler seed + chain index before any draw; (shared) a chain never modifies in place what it aliases from "
     "the shared-memory sampler; (nonedefault) item lists are defaulted only when None, so a request that happens "
     "to be empty is not turned into 'all items'. NOT decided: actual schedules, solver warm-start effects, "
@@ -18,7 +22,20 @@ EXPLANATION = (
 ASSUMPTIONS = ["worker processes operate on pickled copies of the model", "multiprocessing's map preserves argument order"]
 
 
+def _relabel(ctx, check, old: str, new: str) -> None:
+    before = len(ctx.instances)
+    check(ctx)
+    for i in ctx.instances[before:]:
+        if i["rule"] == old:
+            i["rule"] = new
+    for f in ctx.findings:
+        if f.rule == old:
+            f.rule = new
+
+
 def run(ctx) -> None:
+    ctx.rule("C14.tasks", "the set of deletion tasks does not depend on the order of the requested items (shared with C06)", floor=3)
+    ctx.rule("C14.count", "OptGP: sample count bookkeeping is independent of the process count (shared with C16)", floor=1)
     ctx.rule("C14.keyed", "T5: unordered pool primitive => keyed / order-free consumption", floor=3)
     ctx.rule("C14.residue", "T1/T2: task functions leave no residue on the worker model", floor=6)
     ctx.rule("C14.chunk", "T6: chunk size >= 1", floor=2)
@@ -35,6 +52,25 @@ def run(ctx) -> None:
     for f in ctx.findings:
         if f.rule == "C06.scope":
             f.rule = "C14.residue"
+    # per-item helpers that run on the worker's model: no effect may outlive the item (C13's scope analysis on them)
+    for mod, short in (("cobra.flux_analysis.loopless", "loopless_fva_iter"), ("cobra.flux_analysis.deletion", "_reaction_deletion"), ("cobra.flux_analysis.deletion", "_gene_deletion")):
+        fn = ctx.prog.func(mod, short)
+        bad = []
+        for e in ctx.eff.summary(fn):
+            if not c13.is_model_cell(e.cell) or not c13.visible_roots(ctx, fn, e):
+                continue
+            key = (e.fn.qualname.replace("cobra.", "", 1), norm(enclosing_stmt(e.node)))
+            if key in c13.FROZEN_EXCEPTIONS:
+                continue
+            bad.append(e)
+        if bad:
+            e = bad[0]
+            via = " <- ".join(f"{c[0].short}@L{getattr(c[1], 'lineno', 0)}" for c in e.chain[:5])
+            ctx.bad("C14.residue", e.fn, enclosing_stmt(e.node), f"(reached via {via or short}) {e.op} of {e.cell} made while handling one item of {short} is not undone before the next item: later items of the same worker see it, so results depend on request order, chunking and process count")
+        else:
+            ctx.ok("C14.residue", fn, None, "every effect on the worker's model is scoped to the item")
+    _relabel(ctx, c06.check_tasks, "C06.tasks", "C14.tasks")
+    _relabel(ctx, c16.check_count, "C16.count", "C14.count")
     fa.check_chunk(ctx, "C14.chunk", [fa.FVA, ("cobra.flux_analysis.deletion", "_multi_deletion")])
     fa.check_seed(ctx, "C14.seed")
     fa.check_shared_state(ctx, "C14.shared")
